@@ -457,7 +457,27 @@ func runSymTamper(j *judge, g group) {
 				}
 				return ok
 			}
-			// plain CBC is not authenticated: only "no panic"
+			// plain CBC is not authenticated, a modified message is not "rejected"; but kit must still do what an
+			// independent CBC(+PKCS#7) implementation does with these bytes
+			if len(in[2]) == 16 && len(in[0]) > 0 && len(in[0])%16 == 0 {
+				want, valid := refDec(a, key, in[2], in[0], nil, nil)
+				if !valid {
+					if !j.reject("DecryptSymmetric", a.name, "invalid-padding", [][]byte{d.pt}, d.err, d.pan, nil, rp) {
+						return false
+					}
+					rec.Count("padding.cbc.invalid_rejected", 1)
+					return true
+				}
+				if !j.accept("DecryptSymmetric", a.name, shape, d.err, d.pan, rp) {
+					return false
+				}
+				if !bytes.Equal(d.pt, want) {
+					j.viol(sigOf("DecryptSymmetric", a.name, "interop-reference-output-decrypts-differently"), "kit and the reference decrypt the same modified blocks to different plaintexts", rp)
+					return false
+				}
+				rec.Count("observed.cbc.tamper.undetected", 1)
+				return true
+			}
 			if !j.noPanic("DecryptSymmetric", a.name, shape, d.pan, rp) {
 				return false
 			}
@@ -761,17 +781,23 @@ func ctLenCase(j *judge, a symAlg, key []byte, jk jwk.Key, L int, ct, nonce, tag
 			rec.Count("ctlen.cbc.valid_blocks_agree", 1)
 			return true
 		}
-		// unauthenticated CBC with invalid padding (or no block at all): only "no panic" is required
-		if !j.noPanic("DecryptSymmetric", a.name, "random-blocks-invalid-padding", d.pan, rp) {
+		if L > 0 {
+			// whole blocks that do not end in a PKCS#7 padding: an independent implementation rejects them
+			if !j.reject("DecryptSymmetric", a.name, "invalid-padding", outs, d.err, d.pan, nil, rp) {
+				return false
+			}
+			rec.Count("padding.cbc.invalid_rejected", 1)
+			return true
+		}
+		// no block at all: kit's unpadder lets the empty buffer through (observed, see padding-direct)
+		if !j.noPanic("DecryptSymmetric", a.name, "empty-ciphertext", d.pan, rp) {
 			return false
 		}
 		if d.err == nil {
-			rec.Count("observed.cbc.invalid_padding.accepted", 1)
-			if L == 0 {
-				rec.Observe("AES-CBC (PKCS#7): DecryptSymmetric of an empty ciphertext returns an empty plaintext and no error (an independent unpadder rejects it: a padded ciphertext has at least one block); unauthenticated mode, not judged")
-			}
+			rec.Count("observed.cbc.empty_ciphertext.accepted", 1)
+			rec.Observe("AES-CBC (PKCS#7): DecryptSymmetric of an empty ciphertext returns an empty plaintext and no error (an independent unpadder rejects it: a padded ciphertext has at least one block); not judged")
 		} else {
-			rec.Count("observed.cbc.invalid_padding.error", 1)
+			rec.Count("observed.cbc.empty_ciphertext.error", 1)
 		}
 		return true
 	case famGCM, famC20P, famXC20P:
@@ -815,14 +841,10 @@ func ctLenCase(j *judge, a symAlg, key []byte, jk jwk.Key, L int, ct, nonce, tag
 				}
 				return true
 			}
-			if !j.noPanic("DecryptSymmetric", a.name, "valid-mac-invalid-padding", d2.pan, rp2) {
+			if !j.reject("DecryptSymmetric", a.name, "valid-mac-invalid-padding", [][]byte{d2.pt}, d2.err, d2.pan, nil, rp2) {
 				return false
 			}
-			if d2.err != nil {
-				rec.Count("observed.hs.validmac_invalid_padding.error", 1)
-			} else {
-				rec.Count("observed.hs.validmac_invalid_padding.accepted", 1)
-			}
+			rec.Count("padding.hs.invalid_rejected", 1)
 		}
 		return true
 	case famKW:
@@ -1088,6 +1110,35 @@ func runHSDirect(j *judge, g group) {
 			}
 		}
 	}
+	if name == "A256CBC-HS384" {
+		// correctly MACed block strings with every kind of final padding (the three named constructions get this in sym-padding)
+		for _, pc := range paddingCases(rng, 16) {
+			iv := rng.Bytes(16)
+			want, valid := refUnpadN(pc.raw, 16)
+			e := refCBCEnc(key[pr.macLen:], iv, pc.raw)
+			sealed := append(clone(e), refHSTag(pr, key, iv, e, nil)...)
+			rp := rpm("construction", name, "key", key, "nonce", iv, "sealed", sealed, "final_plaintext_blocks", pc.raw, "detail", pc.detail, "reference_accepts", valid, "note", "the tag is the correct HMAC over this ciphertext")
+			j.eachLayout("padding", pr.tagLen, func() bool {
+				o := kOpen(aead, iv, sealed, nil)
+				if valid {
+					if !j.accept("aescbcaead.Open", name, "valid-mac-valid-padding", o.err, o.pan, rp) {
+						return false
+					}
+					if !bytes.Equal(o.out, want) {
+						j.viol(sigOf("aescbcaead.Open", name, "interop-reference-output-decrypts-differently"), "kit and the reference open the same authentic blocks to different plaintexts", rp)
+						return false
+					}
+					rec.Count("padding.hs.valid_accepted", 1)
+					return true
+				}
+				if !j.reject("aescbcaead.Open", name, "valid-mac-invalid-padding", [][]byte{o.out}, o.err, o.pan, nil, rp) {
+					return false
+				}
+				rec.Count("padding.hs.invalid_rejected", 1)
+				return true
+			})
+		}
+	}
 	nonce := rng.Bytes(16)
 	for L := 0; L < pr.tagLen; L++ {
 		in := rng.Bytes(L)
@@ -1199,41 +1250,197 @@ func runPaddingDirect(j *judge, g group) {
 			return ok1 && ok2
 		})
 	}
-	// damaged padding: where the independent unpadder still finds a valid padding kit must return the same bytes;
-	// where it does not, rejection is counted, not judged (unauthenticated data, the statement only speaks of ciphers)
-	for _, L := range []int{0, 5, 15, 16, 31} {
-		buf := rng.Bytes(L)
-		padded := refPad(buf)
-		for i := len(padded) - 16; i < len(padded); i++ {
-			for _, bit := range bitsFor(i, g.rep) {
-				in := flip(padded, i, bit)
-				want, valid := refUnpad(in)
-				rp := rpm("padded", padded, "input", in, "mutation", fmt.Sprintf("byte %d bit %d", i, bit))
-				j.eachLayout("padding", 0, func() bool {
-					u := kUnpad(in, 16)
-					if valid {
-						if !j.accept("padding.UnpadPKCS7", "", "still-valid-padding", u.err, u.pan, rp) {
-							return false
-						}
-						if !bytes.Equal(u.out, want) {
-							j.viol("padding.UnpadPKCS7/interop-differs-from-reference", "UnpadPKCS7 and the independent unpadder strip different paddings", rp)
-							return false
-						}
-						return true
-					}
-					if !j.noPanic("padding.UnpadPKCS7", "", "damaged-padding", u.pan, rp) {
+	// the unpadder judged differentially against the in-harness one (RFC 5652 6.3): block sizes 8 and 16, 1-4 blocks,
+	// every value of the last byte, valid paddings, and valid paddings with one earlier padding byte damaged
+	for _, size := range []int{8, 16} {
+		for _, pc := range paddingCases(rng, size) {
+			want, valid := refUnpadN(pc.raw, size)
+			rp := rpm("block_size", size, "input", pc.raw, "shape", pc.shape, "detail", pc.detail, "reference_accepts", valid, "reference_output", want)
+			j.eachLayout("padding", 0, func() bool {
+				u := kUnpad(pc.raw, size)
+				if valid {
+					if !j.accept("padding.UnpadPKCS7", "", "valid-padding", u.err, u.pan, rp) {
 						return false
 					}
-					if u.err != nil {
-						rec.Count("observed.padding.damaged.rejected", 1)
-					} else {
-						rec.Count("observed.padding.damaged.accepted", 1)
+					if !bytes.Equal(u.out, want) {
+						j.viol("padding.UnpadPKCS7/interop-differs-from-reference", "UnpadPKCS7 and the independent unpadder strip different paddings", rpm("block_size", size, "input", pc.raw, "kit", u.out, "reference", want))
+						return false
 					}
+					rec.Count("padding.unpad.agree_accept", 1)
 					return true
-				})
+				}
+				if !j.reject("padding.UnpadPKCS7", "", pc.shape, [][]byte{u.out}, u.err, u.pan, nil, rpm("block_size", size, "input", pc.raw, "detail", pc.detail, "kit_output", u.out)) {
+					return false
+				}
+				rec.Count("padding.unpad.agree_reject", 1)
+				return true
+			})
+		}
+	}
+	// the one place where kit and the reference differ on the unchanged tree: the empty buffer
+	if u := kUnpad([]byte{}, 16); u.pan == "" && u.err == nil {
+		rec.Count("observed.padding.empty_buffer.accepted", 1)
+		rec.Observe("padding.UnpadPKCS7 returns (empty, nil) for an EMPTY buffer; RFC 5652 6.3 padding always adds 1..k bytes, so an empty buffer is not a padded message and an independent unpadder rejects it. The differential check covers 1-4 blocks; the empty case is recorded, not judged")
+	}
+}
+
+type padCase struct {
+	raw           []byte
+	shape, detail string
+}
+
+// paddingCases: raw block strings (1-4 blocks of `size` bytes) whose tail is a
+// PKCS#7 padding or a damaged one. shape names the class for signatures; the
+// verdict always comes from the reference unpadder, not from the shape.
+func paddingCases(rng *mon.RNG, size int) []padCase {
+	var out []padCase
+	for blocks := 1; blocks <= 4; blocks++ {
+		base := rng.Bytes(size * blocks)
+		last := len(base) - 1
+		for v := 0; v <= 255; v++ {
+			c := clone(base)
+			c[last] = byte(v)
+			shape := "pad-bytes-mismatch"
+			switch {
+			case v == 0:
+				shape = "pad-byte-0x00"
+			case v > size:
+				shape = "pad-byte-greater-than-block-size"
+			}
+			out = append(out, padCase{c, shape, fmt.Sprintf("%d blocks, last byte 0x%02x, bytes before it random", blocks, v)})
+			if v >= 1 && v <= size {
+				good := clone(base)
+				for i := len(good) - v; i < len(good); i++ {
+					good[i] = byte(v)
+				}
+				out = append(out, padCase{good, "valid-padding", fmt.Sprintf("%d blocks, valid padding of %d", blocks, v)})
+				if v >= 2 {
+					// last byte valid, one earlier padding byte wrong
+					seen := map[string]bool{}
+					for _, pos := range []int{len(good) - v, len(good) - v + (v-1)/2, len(good) - 2} {
+						for _, nv := range []byte{byte(v) ^ 1, 0, byte(v) - 1} {
+							d := clone(good)
+							d[pos] = nv
+							if nv == byte(v) || seen[string(d)] {
+								continue
+							}
+							seen[string(d)] = true
+							out = append(out, padCase{d, "pad-bytes-mismatch", fmt.Sprintf("%d blocks, padding of %d with byte at offset %d set to 0x%02x", blocks, v, pos-len(good), nv)})
+						}
+					}
+				}
 			}
 		}
 	}
+	return out
+}
+
+// runSymPadding: the same raw block strings one level up. AES-CBC (PKCS#7)
+// ciphertexts are made with the reference's unpadded CBC, so the final
+// plaintext bytes are chosen by the harness; AES-CBC-HMAC messages are made with
+// the reference RFC 7518 composition around such a block string, so the MAC is
+// CORRECT and only the padding decides. kit must accept exactly when the
+// independent unpadder accepts (same plaintext), else return an error and no output.
+func runSymPadding(j *judge, g group) {
+	a, ok := symInfo(j, g.alg)
+	if !ok {
+		return
+	}
+	rng := mon.NewRNG("c03-sym-padding", j.idx)
+	key := rng.Bytes(a.keyLen)
+	jk := octKey(key)
+	var aead cipher.AEAD
+	if a.fam == famHS {
+		aead = hsAEAD(j, a.name, key)
+		if aead == nil {
+			return
+		}
+	}
+	for ci, pc := range paddingCases(rng, 16) {
+		if ci%64 == 0 {
+			rec.Progress()
+		}
+		iv := rng.Bytes(16)
+		want, valid := refUnpadN(pc.raw, 16)
+		switch a.fam {
+		case famCBC:
+			ct := refCBCEnc(key, iv, pc.raw)
+			rp := rpm("algorithm", a.name, "key", key, "nonce", iv, "ciphertext", ct, "final_plaintext_blocks", pc.raw, "detail", pc.detail, "reference_accepts", valid)
+			for _, via := range []string{"DecryptSymmetric", "Decrypt"} {
+				j.eachLayout("padding", 0, func() bool {
+					d := kDec(via, a.name, jk, iv, ct, nil, nil)
+					if valid {
+						if !j.accept(via, a.name, "valid-padding", d.err, d.pan, rp) {
+							return false
+						}
+						if !bytes.Equal(d.pt, want) {
+							j.viol(sigOf(via, a.name, "interop-reference-output-decrypts-differently"), "kit and the reference decrypt the same blocks to different plaintexts", rp)
+							return false
+						}
+						rec.Count("padding.cbc.valid_accepted", 1)
+						return true
+					}
+					if !j.reject(via, a.name, "invalid-padding", [][]byte{d.pt}, d.err, d.pan, nil, rp) {
+						return false
+					}
+					rec.Count("padding.cbc.invalid_rejected", 1)
+					return true
+				})
+			}
+		case famHS:
+			pr := hsTable[a.name]
+			var aad []byte
+			if ci%3 == 0 {
+				aad = rng.Bytes(7)
+			}
+			e := refCBCEnc(key[pr.macLen:], iv, pc.raw)
+			tag := refHSTag(pr, key, iv, e, aad)
+			rp := rpm("algorithm", a.name, "key", key, "nonce", iv, "aad", aad, "ciphertext", e, "tag", tag, "final_plaintext_blocks", pc.raw, "detail", pc.detail,
+				"reference_accepts", valid, "note", "the tag is the correct HMAC over this ciphertext")
+			j.eachLayout("padding", a.tagLen, func() bool {
+				d := kDec("DecryptSymmetric", a.name, jk, iv, e, tag, aad)
+				o := kOpen(aead, iv, append(clone(e), tag...), aad)
+				if valid {
+					ok1 := j.accept("DecryptSymmetric", a.name, "valid-mac-valid-padding", d.err, d.pan, rp)
+					ok2 := j.accept("aescbcaead.Open", a.name, "valid-mac-valid-padding", o.err, o.pan, rp)
+					if ok1 && !bytes.Equal(d.pt, want) {
+						j.viol(sigOf("DecryptSymmetric", a.name, "interop-reference-output-decrypts-differently"), "kit and the reference decrypt the same authentic blocks to different plaintexts", rp)
+						ok1 = false
+					}
+					if ok2 && !bytes.Equal(o.out, want) {
+						j.viol(sigOf("aescbcaead.Open", a.name, "interop-reference-output-decrypts-differently"), "kit and the reference open the same authentic blocks to different plaintexts", rp)
+						ok2 = false
+					}
+					if ok1 && ok2 {
+						rec.Count("padding.hs.valid_accepted", 2)
+					}
+					return ok1 && ok2
+				}
+				ok1 := j.reject("DecryptSymmetric", a.name, "valid-mac-invalid-padding", [][]byte{d.pt}, d.err, d.pan, nil, rp)
+				ok2 := j.reject("aescbcaead.Open", a.name, "valid-mac-invalid-padding", [][]byte{o.out}, o.err, o.pan, nil, rp)
+				if ok1 && ok2 {
+					rec.Count("padding.hs.invalid_rejected", 2)
+				}
+				return ok1 && ok2
+			})
+		}
+	}
+}
+
+var hsCtors = map[string]func([]byte) (cipher.AEAD, error){
+	"A128CBC-HS256": aescbcaead.NewAESCBC128SHA256,
+	"A192CBC-HS384": aescbcaead.NewAESCBC192SHA384,
+	"A256CBC-HS384": aescbcaead.NewAESCBC256SHA384,
+	"A256CBC-HS512": aescbcaead.NewAESCBC256SHA512,
+}
+
+func hsAEAD(j *judge, name string, key []byte) cipher.AEAD {
+	aead, err := hsCtors[name](key)
+	if err != nil {
+		j.viol(sigOf("aescbcaead.New", name, "valid-input-rejected"), "constructor rejected a key of the right size: "+err.Error(), rpm("key", key))
+		return nil
+	}
+	return aead
 }
 
 // ------------------------------------------------------------ vectors and reference self-check
